@@ -15,7 +15,7 @@ import (
 
 func init() {
 	Registry["C14"] = Set{
-		Explanation: "Decides structural clauses of remote failure detection: X1 the node-down chain — the goroutine serving a connection reaches unregisterConnection on every exit including its recover path, that function deletes the connection and reaches RouteNodeDown, which drains the relations with CleanupNode and sends one exit (links) / one down message with High priority (monitors) per consumer, every such message carrying ErrNoConnection; X2 incarnation guard vs ownership on raw frames — an identifier the reader rebuilds with its own creation must be guarded by the writer against the peer's creation, one the reader rebuilds with the peer's creation must not be (a wrongly guarded frame is never sent, an unguarded one lets identifiers of an earlier incarnation through); X3 the type switches that fan out node-down/termination cover every static target type ever passed to AddLink/AddMonitor; X4 every wait for a remote result or response is a select with a timer case (requests in flight end within their timeout). Added while probing: X1 the node-down send loops walk the whole consumer lists CleanupNode returned; X2b the request/link/monitor methods of a connection refuse identifiers of another incarnation before sending; X4 a pooled timer (lib.TakeTimer) is re-armed by Reset on every path to the select.",
+		Explanation: "Decides structural clauses of remote failure detection: X1 the node-down chain — the goroutine serving a connection reaches unregisterConnection on every exit including its recover path, that function deletes the connection and reaches RouteNodeDown, which drains the relations with CleanupNode and sends one exit (links) / one down message with High priority (monitors) per consumer, every such message carrying ErrNoConnection; X2 incarnation guard vs ownership on raw frames — an identifier the reader rebuilds with its own creation must be guarded by the writer against the peer's creation, one the reader rebuilds with the peer's creation must not be (a wrongly guarded frame is never sent, an unguarded one lets identifiers of an earlier incarnation through); X3 the type switches that fan out node-down/termination cover every static target type ever passed to AddLink/AddMonitor; X4 every wait for a remote result or response is a select with a timer case (requests in flight end within their timeout). Added while probing: X1 the node-down send loops walk the whole consumer lists CleanupNode returned; X2b the request/link/monitor methods of a connection refuse identifiers of another incarnation before sending; X4 a pooled timer (lib.TakeTimer) is re-armed by Reset on every path to the select. X5 every channel type that is the target of a non-blocking send (MessageResult, response) is created buffered, so a reply that arrives before the requester blocks in its wait is kept.",
 		NotDecided: []string{
 			"timing (that the timeout elapses), TCP-level detection of a dead peer",
 			"restart of a peer under the same name within one second (creation is in seconds)",
@@ -72,6 +72,7 @@ func calleeName(cc *ssa.CallCommon) string {
 }
 
 func runC14(p *load.Program, r *core.Report) {
+	c14ResultChannels(p, r)
 	c14Chain(p, r)
 	lc, writers, readers, rfn := protoLayouts(p)
 	if lc == nil || len(writers) == 0 || len(readers) == 0 {
@@ -587,6 +588,68 @@ func c14Timers(p *load.Program, r *core.Report) {
 				r.Bad(rule, "C14.X4|"+fname(f)+"|bare-receive", fname(f), p.Pos(in.Pos()), "no unbounded receive on a result channel", "bare receive without timeout")
 			}
 		})
+	}
+}
+
+// c14ResultChannels: X5 — a reply handed over with a non-blocking send must find room even when the
+// requester has not reached its wait yet: every channel of a type that is the target of a
+// non-blocking send (select with a default arm) is created with a capacity of at least 1.
+func c14ResultChannels(p *load.Program, r *core.Report) {
+	rule := "C14.X5 reply-not-lost-before-the-wait"
+	r.Floor(rule, 2)
+	// element types that are sent to without blocking
+	type site struct {
+		pos string
+		fn  string
+	}
+	nb := map[string]site{}
+	for _, f := range funcsOfPkgs(p, "net/proto", "node") {
+		eachInstr(f, func(in ssa.Instruction) {
+			sel, ok := in.(*ssa.Select)
+			if !ok || sel.Blocking {
+				return
+			}
+			for _, st := range sel.States {
+				if st.Dir != types.SendOnly {
+					continue
+				}
+				et := st.Chan.Type().Underlying().(*types.Chan).Elem()
+				if n, ok := et.(*types.Named); ok && (n.Obj().Name() == "MessageResult" || n.Obj().Name() == "response") {
+					nb[n.Obj().Pkg().Path()+"."+n.Obj().Name()] = site{p.Pos(in.Pos()), fname(f)}
+				}
+			}
+		})
+	}
+	for tn, snd := range nb {
+		n, bad := 0, []string{}
+		for _, f := range funcsOfPkgs(p, "net/proto", "node") {
+			eachInstr(f, func(in ssa.Instruction) {
+				mk, ok := in.(*ssa.MakeChan)
+				if !ok {
+					return
+				}
+				et := mk.Type().Underlying().(*types.Chan).Elem()
+				nn, ok := et.(*types.Named)
+				if !ok || nn.Obj().Pkg().Path()+"."+nn.Obj().Name() != tn {
+					return
+				}
+				n++
+				if c, okc := constInt(mk.Size); !okc || c < 1 {
+					bad = append(bad, fname(f)+" at "+p.Pos(mk.Pos()))
+				}
+			})
+		}
+		short := tn[strings.LastIndex(tn, "/")+1:]
+		key := "C14.X5|" + short
+		inst := "channels of " + short + " (filled by the non-blocking send in " + snd.fn + ") are buffered"
+		switch {
+		case n == 0:
+			r.Unk(rule, key, "", "", inst, "no make site found")
+		case len(bad) > 0:
+			r.Bad(rule, key, snd.fn, snd.pos, inst, fmt.Sprintf("%d of %d channels are unbuffered (%s): a reply that arrives after the request was written but before the requester blocks in its wait is dropped, and the request times out although the peer executed it", len(bad), n, strings.Join(bad, ", ")))
+		default:
+			r.OK(rule, key, snd.fn, snd.pos, inst, fmt.Sprintf("%d make site(s), all with capacity >= 1", n))
+		}
 	}
 }
 
